@@ -3,9 +3,24 @@
    answers against the naive definitions over the sorted value list (Spec/ValSeq.v). *)
 From Coq Require Import NArith List Bool.
 Require Import SDS.Model.Mach SDS.Model.Bits SDS.Model.Raw SDS.Model.IntVec SDS.Model.BitVec SDS.Model.Sparse.
-Require Import SDS.Spec.BitSeq SDS.Spec.ValSeq SDS.Check.Common.
+Require Import SDS.Spec.BitSeq SDS.Spec.ValSeq SDS.Check.Common SDS.Check.SparseFast.
 Import ListNotations.
 Open Scope N_scope.
+
+(* Long value lists are written as runs (start, count, step): start, start + step, ... (count values).
+   This is only a compact notation of the input list; model and spec both see the expanded list. *)
+Fixpoint run_vals (start step : N) (k : nat) : list N :=
+  match k with O => [] | S k' => start :: run_vals (start + step) step k' end.
+Definition expand (runs : list (N * N * N)) : list N :=
+  flat_map (fun r => match r with (s, c, st) => run_vals s st (N.to_nat c) end) runs.
+
+(* the last element in one pass ([ValSeq.last_opt] reverses the list with [rev], which is quadratic) *)
+Fixpoint last_lin (l : list N) : option N :=
+  match l with
+  | [] => None
+  | [x] => Some x
+  | _ :: t => last_lin t
+  end.
 
 Inductive query :=
 | QLens (len ones zeros : N)
@@ -42,6 +57,40 @@ Definition model_build (sp : selpath) (m : mode) (route w n : N) (vals : list N)
   | 1 => sv_build_multiset sp m w n vals
   | 2 => let* s := sv_copy sp m w n vals in Ok (inl s)
   | _ => sv_try_from_iter sp m w vals
+  end.
+
+(* ---- the one-pass evaluation of the builder (Check/SparseFast.v) *)
+
+(* from this many values on, the builder state is evaluated in one pass only (replaying try_set value by value
+   over list-based arrays would take minutes); below it, the model replays every call and the one-pass arrays are
+   compared with the arrays the replay produced *)
+Definition FAST_FROM : N := 20000.
+
+(* (increment, universe) when the route accepts the input, i.e. when the one-pass evaluation is defined *)
+Definition fast_params (route n : N) (vals : list N) : option (N * N) :=
+  match route with
+  | 0 | 2 => if fast_valid 1 n vals then Some (1, n) else None
+  | 1 => if fast_valid 0 n vals then Some (0, n) else None
+  | _ => let u := match last_lin vals with None => 0 | Some last => last + 1 end in
+         if fast_valid 0 u vals && (u <? 2 ^ 64) then Some (0, u) else None
+  end.
+
+Definition fast_agrees (sv : sparse) (fb : builder) : bool :=
+  (sv_len sv =? b_universe fb) && raw_eqb (bv_data (sv_high sv)) (b_high fb) && iv_eqb (sv_low sv) (b_low fb).
+
+(* the model's vector, and whether the one-pass arrays agree with the replayed ones (true when not compared) *)
+Definition model_build_checked (sp : selpath) (m : mode) (route w n : N) (vals : list N) : res (sparse + N) * bool :=
+  match fast_params route n vals with
+  | Some (inc, u) =>
+      if FAST_FROM <=? lenN vals then
+        ((let* b := fast_builder m w u inc vals in sv_try_from sp m b), true)
+      else
+        let r := model_build sp m route w n vals in
+        (r, match r, fast_builder m w u inc vals with
+            | Ok (inl sv), Ok fb => fast_agrees sv fb
+            | _, _ => true
+            end)
+  | None => (model_build sp m route w n vals, true)
   end.
 
 Section Q.
@@ -103,21 +152,23 @@ Definition accepted (route n : N) (vs : list N) : bool :=
 Definition universe_of (route n : N) (vs : list N) : N :=
   match route with
   | 0 | 1 | 2 => n
-  | _ => match last_opt vs with Some v => v + 1 | None => 0 end
+  | _ => match last_lin vs with Some v => v + 1 | None => 0 end
   end.
 (* try_from_iter with last value 2^64-1 is outside the property (the universe would be 2^64) *)
 Definition excluded (route : N) (vs : list N) : bool :=
   match route with
   | 0 | 1 | 2 => false
-  | _ => match last_opt vs with Some v => 2 ^ 64 - 1 <=? v | None => false end
+  | _ => match last_lin vs with Some v => 2 ^ 64 - 1 <=? v | None => false end
   end.
 
 Definition check (c : case) : N :=
   match c with
   | CSV path dbg route n vals w built qs =>
       let sp := sp_of path in let m := mode_of dbg in
+      let mb := model_build_checked sp m route w n vals in
       let m_ok :=
-        match model_build sp m route w n vals, built with
+        snd mb &&
+        match fst mb, built with
         | Ok (inl sv), IOk (inl ser) => nlist_eqb (sv_serialize sv) ser && forallb (model_query sp m sv) qs
         | Ok (inr e), IOk (inr e') => e =? e'
         | Panic k, IPanic c => pk_code k =? c
@@ -137,14 +188,20 @@ Definition check (c : case) : N :=
       code m_ok s_ok
   end.
 
-(* what the model computes for a case (for replays) *)
+(* what the model computes for a case (for replays): the serialized form (omitted for the long value lists),
+   whether it equals the observed one, whether the one-pass builder arrays agree with the replayed ones,
+   and the verdict of model and spec on every query *)
 Definition explain (c : case) :=
   match c with
   | CSV path dbg route n vals w built qs =>
       let sp := sp_of path in let m := mode_of dbg in
-      match model_build sp m route w n vals with
-      | Ok (inl sv) => (Some (sv_serialize sv), map (model_query sp m sv) qs,
+      let mb := model_build_checked sp m route w n vals in
+      match fst mb with
+      | Ok (inl sv) => (Some (if FAST_FROM <=? lenN vals then [] else sv_serialize sv),
+                        match built with IOk (inl ser) => nlist_eqb (sv_serialize sv) ser | _ => false end,
+                        snd mb,
+                        map (model_query sp m sv) qs,
                         map (spec_query (negb (has_dup vals)) (universe_of route n vals) vals) qs)
-      | _ => (None, [], [])
+      | _ => (None, false, snd mb, [], [])
       end
   end.
